@@ -1393,7 +1393,7 @@ func TestCheck(t *testing.T) {
 			bail()
 		})
 		lap("lock_stepped")
-		vh.Parallel(r.Pick(10000, 1000000), workers, func(i int) {
+		vh.Parallel(r.Pick(8000, 1000000), workers, func(i int) {
 			if stop.Load() || !on("lockfree") {
 				return
 			}
